@@ -11,6 +11,7 @@
    source regenerated on every run: Mistral/Gen/SubWfFacts.lean. -/
 import Mistral.Model.SubWf
 import Mistral.Lemmas.SubWf
+import Mistral.Lemmas.SubWfRerun
 import Mistral.Gen.SubWfFacts
 set_option linter.unusedSimpArgs false
 namespace Mistral.Props.C09
@@ -476,5 +477,29 @@ example : resolve [("wb.c".toList, ""), ("c".toList, "")] "wb.w1".toList "w1".to
     = some ("wb.c".toList, "") := by decide
 example : resolve [("wb.c".toList, ""), ("c".toList, "")] "wb.a.b".toList "a.b".toList "" "c".toList
     = some ("wb.c".toList, "") := by decide
+
+
+/-! ## an execution that is not completed is not accepted — inner reruns included -/
+
+/-- "ends SUCCESS … iff the sub-workflow succeeded … and the parent continues exactly once per
+    sub-workflow completion", the accepted flag behind it: over ALL histories of the execution tree —
+    new tasks, spawns, completions, (re)deliveries AND reruns of a task inside a failed or cancelled
+    sub-workflow (`_recursive_rerun`: the execution and all its ancestors go back to RUNNING) — every
+    accepted execution is completed.  A with-items parent counts accepted children only, so a child
+    that was re-opened from the inside (RUNNING again) is never taken for a finished item. -/
+theorem running_child_not_accepted (ns0 : String) (env0 : Dict) (evs : List EvR) (i : Nat) (e : Exec)
+    (he : (runR (init ns0 env0) evs).execs[i]? = some e) (hnf : isFinal e.state = false) :
+    e.accepted = false := by
+  cases ha : e.accepted with
+  | false => rfl
+  | true =>
+    have := accFinal_runR (accFinal_init ns0 env0) evs e (List.mem_of_getElem? he) ha
+    rw [hnf] at this; cases this
+
+-- non-vacuity: a child fails (accepted), its inner task is rerun: child and root RUNNING, not accepted
+example : ((runR (init "" []) [.base (.newTask 0), .base (.spawn 0 []), .base (.finish 1 .ERROR .null),
+      .rerun 1]).execs.map fun e => (e.state, e.accepted)) = [(.RUNNING, false), (.RUNNING, false)] ∧
+    ((runR (init "" []) [.base (.newTask 0), .base (.spawn 0 []), .base (.finish 1 .ERROR .null)]).execs.map
+      fun e => (e.state, e.accepted)) = [(.RUNNING, false), (.ERROR, true)] := by decide
 
 end Mistral.Props.C09
